@@ -27,7 +27,9 @@ Definition sym : prims string := mkprims string
   (fun keys i => "key([" ++ cat keys ++ "];" ++ dec i ++ ")")%string
   (fun how ka kb a => "mleft(" ++ how ++ ";[" ++ cat ka ++ "];[" ++ cat kb ++ "];" ++ a ++ ")")%string
   (fun how ka kb a => "mright(" ++ how ++ ";[" ++ cat ka ++ "];[" ++ cat kb ++ "];" ++ a ++ ")")%string
-  (fun a b => "fillna(" ++ a ++ ";" ++ b ++ ")")%string.
+  (fun a b => "fillna(" ++ a ++ ";" ++ b ++ ")")%string
+  (fun ka => "nullmarkL([" ++ cat ka ++ "])")%string
+  (fun kb => "nullmarkR([" ++ cat kb ++ "])")%string.
 
 (* the model's step is the executor AS IT IS: it chooses its scratch names (Model/ScratchNames.v pexec_code) *)
 Record pcase := mkpc { pc_step : pstep; pc_left : list string; pc_right : list string; pc_captured : bool }.
